@@ -240,5 +240,83 @@ PROPS["C20"] = {
     "assumptions": [
         "I10: history entries are non-blank (lines the editor itself could have stored)",
         "usize overflow of the cursor (a line of 2^64 characters) is not modelled",
+# ---------------------------------------------------------------- C14
+def _c14_unhex(h):
+    if h in ("-", "N"):
+        return h
+    try:
+        return bytes.fromhex(h).decode("utf-8", "replace")
+    except ValueError:
+        return "?"
+
+
+def c14_classify(rq, impl):
+    f = rq.split(" ")
+    if f[0] == "L14":
+        w = impl.split(" ")
+        return "line:" + (" ".join(w[:2]) if w[0] == "ok" else w[0])
+    w = impl.split(" ")
+    return "session:" + w[0]
+
+
+def c14_nontrivial(rq, impl):
+    # a line that parses to a command, or a session that yields at least one command
+    if rq.startswith("L14"):
+        return impl.startswith("ok ") or impl.startswith("exit") or impl == "panic"
+    body = impl.split(" :", 1)[1] if " :" in impl else ""
+    return any(ev.strip() not in ("", "err") for ev in body.split("|"))
+
+
+def c14_group(d):
+    f = d["request"].split(" ")
+    if f[0] == "L14":
+        words = _c14_unhex(f[1]).split(" ")
+        return "line-" + (words[0].lower()[:12] if words else "")
+    return "session"
+
+
+PROPS["C14"] = {
+    "theorems": [
+        "Lace.C14.parse_integer_eq_grammar",
+        "Lace.C14.parse_command_eq_grammar",
+        "Lace.C14.parse_no_panic",
+        "Lace.C14.reader_lines_valid",
+        "Lace.C14.session_no_panic",
+        "Lace.C14.session_eq_script",
+        "Lace.C14.split_argument_eq_split_stdin",
+        "Lace.C14.read_no_panic",
+        "Lace.C14.session_eq_lines",
+        "Lace.C14.transport_independent",
+        "Lace.C14.transport_independent_semicolon",
+        "Lace.C14.transport_independent_argument_only",
+        "Lace.C14.separators_equivalent",
+        "Lace.C14.swapSeparators_ok",
+        "Lace.C14.commandTable_unambiguous",
+        "Lace.C14.parse_offsets_in_range",
+    ],
+    "compare": cmp_default,
+    "classify": c14_classify,
+    "nontrivial": c14_nontrivial,
+    "group": c14_group,
+    "rule": ("L14: one trimmed command line -> Command::try_from, rendered with all argument values. "
+             "ALL strings of length <= 4 (quick; 5 thorough) over the 16 symbols + - # 0 1 7 9 a f g x o b ^ r _ "
+             "as the argument of `move r1`, `goto`, `break add`, `step into`, `print` (exhaustive); "
+             "boundary-directed literals (magnitudes around 2^15, 2^16, 2^31, 2^32, 20-digit strings) in every radix "
+             "with every sign/prefix/zero placement in 9 argument positions; every command word, alias and "
+             "misspelling of name.rs in three letter cases with 0-3 arguments; random longer lines with multi-byte "
+             "characters and Unicode white space. R14: ~200 random scripts (2000 thorough), each delivered in every "
+             "split between --command argument and stdin, with ';' / newline / mixed separators, with and without a "
+             "trailing separator. A case is non-trivial when the line parses to a command (or exits / panics), or the "
+             "session yields at least one command."),
+    "exhaustive_note": "all strings up to length 4 (quick) / 5 (thorough) over the 16-symbol alphabet are enumerated in 5 argument positions",
+    "trusted": [
+        "Rust str::trim / char::is_whitespace = the 25 White_Space code points transcribed in Lace/Model/Cmd/Text.lean",
+        "str::eq_ignore_ascii_case modelled on code points; std::str::from_utf8 modelled by Lean core's ByteArray.utf8DecodeChar?",
+        "usize cursor arithmetic is not overflow-checked in the model (bounded by the buffer length)",
+        "the interactive terminal reader (terminal.rs) is not modelled; R14 exercises the piped-stdin reader",
+    ],
+    "assumptions": [
+        "I9: command text is valid UTF-8 (invalid UTF-8 on stdin panics with \"uh oh\"; mirrored by the model, outside the property)",
+        "K1: `sudo` exits the process with status 0 from inside the name parser (known finding, not fixed)",
     ],
 }
